@@ -54,6 +54,21 @@ def numDepacketizer (c : PkCfg) (h : HdrSpec) : NumMachine PkState where
     | _ => none
   key s := toString (repr s)
 
+/-- The `error` line of Packetizer / Depacketizer: `if hasattr(sink, "error") and hasattr(source, "error"):
+    self.comb += source.error.eq(sink.error)` — a combinational wire beside the FSM (it is *not* delayed with the
+    realigned data), present only when both endpoints have the field; a source-only `error` stays 0.
+    `ew` = width of the field, `both` = the sink has it too.
+    inputs : the wrapped machine's, followed by sink.error;  outputs: the wrapped machine's, followed by source.error -/
+def errorWire (ew : Nat) (both : Bool) (sinkError : Nat) : Nat := if both then sinkError % 2 ^ ew else 0
+
+def withError {σ : Type} (m : NumMachine σ) (ew : Nat) (both : Bool) : NumMachine σ where
+  init := m.init
+  step s ins :=
+    match ins.getLast? with
+    | some e => (m.step s ins.dropLast).map fun (s', o) => (s', o ++ [errorWire ew both e])
+    | none => none
+  key := m.key
+
 /-- Packetizer → Depacketizer (`packetizer.source.connect(depacketizer.sink)`), as in `test_packet.py`.
     `open pkdpk B H swap nf (byte off width)*`
     inputs : as the packetizer;  outputs: as the depacketizer. -/
@@ -117,13 +132,13 @@ def showBeat (b : Beat) : List Nat := [b2n b.valid, b.data, b2n b.last]
     inputs : [(valid, data, last) per master…, slave.ready]
     outputs: [master_i.ready…, slave.valid, slave.data, slave.last, grant] -/
 def numArbiter (n : Nat) : NumMachine ArbState where
-  init := (arbiter n).init
+  init := (arbiterCtor n).init
   step s ins :=
     match parseBeats n ins with
     | some (ms, [r]) =>
       let i : ArbIn := { masters := ms, ready := n2b r }
-      let o := (arbiter n).out s i
-      some ((arbiter n).next s i, o.readys.map b2n ++ showBeat o.slave ++ [o.grant])
+      let o := (arbiterCtor n).out s i
+      some ((arbiterCtor n).next s i, o.readys.map b2n ++ showBeat o.slave ++ [o.grant])
     | _ => none
   key s := toString (repr s)
 
@@ -131,14 +146,14 @@ def numArbiter (n : Nat) : NumMachine ArbState where
     inputs : [master.valid, master.data, master.last, sel, slave_i.ready…]
     outputs: [master.ready, (valid, data, last) per slave…] -/
 def numDispatcher (m : Nat) (oneHot : Bool) : NumMachine DispState where
-  init := (dispatcher m oneHot).init
+  init := (dispatcherCtor m oneHot).init
   step s ins :=
     match ins with
     | v :: d :: l :: sel :: rs =>
       if rs.length == m then
         let i : DispIn := { master := { valid := n2b v, data := d, last := n2b l }, sel := sel, readys := rs.map n2b }
-        -- one slave and no one_hot: the constructor takes its plain-connect path
-        let mach := if m == 1 && !oneHot then dispatcherConnect else dispatcher m oneHot
+        -- the constructor's choice: no slave / one slave without one_hot (plain connect) / selector logic
+        let mach := dispatcherCtor m oneHot
         let o := mach.out s i
         some (mach.next s i, b2n o.ready :: (o.slaves.map showBeat).flatten)
       else none
